@@ -143,3 +143,38 @@ def service_once_unbounded(B):
         s = ctx.st(m["txgs"])
         B.prove("nothing-touched-otherwise", z3.And(s["arrs"][0] == m["GA"], s["arrs"][1] == m["DA"], s["lo"] == m["lo"], s["hi"] == m["hi"]), top=True)
     B.no_other_exception()
+
+
+@contract(MEMOER + "._serviceOnceTxGrams", props=["C21"], name=MEMOER + "._serviceOnceTxGrams[bounded: one bytearray OBJECT queued for two destinations]", z3_ms=4000)
+def once_shared_bytearray(B):
+    """A caller may queue the SAME bytearray object for several destinations (fan-out).  The gram taken from the queue must be
+    consumed in a COPY: after a step the object still queued for the second destination holds all its bytes, whatever the
+    transport accepted for the first (else the later entries go out truncated or empty: grams lost without any unreachable error)."""
+    ctx = B.ctx
+    g0 = B.bytes("gram")
+    ctx.assume(z3.Length(g0.t) > 0)
+    shared = B.buf(g0, hint="shared")
+    d1, d2 = B.uid("Dst", "d1"), B.uid("Dst", "d2")
+    ctx.assume(z3.And(d1.t != NODST, d2.t != NODST))
+    ctx.assume(ufunc("truthy_Dst", DST, z3.BoolSort())(NODST) == False)    # noqa: E712
+    dd = z3.Const("d!ax", DST)
+    ctx.assume(z3.ForAll([dd], z3.Implies(dd != NODST, ufunc("truthy_Dst", DST, z3.BoolSort())(dd))))
+    txgs = ctx.alloc("deque", init={"v": [(shared, d1), (shared, d2)]})
+    self = B.obj(MEMOER, hint="memoer", txbs=(B.buf(b"", hint="txbs"), None), txgs=txgs, name="m", opened=True)
+    sends = []
+
+    def send(c, a, kw):
+        sends.append((BI.as_text(c, a[0]), a[1]))
+        n = c.fresh("int", "cnt")
+        c.assume(z3.And(n.t >= 0, n.t <= z(BI.text_len(BI.as_text(c, a[0])), "int")))
+        return n
+    B.virtual(self, "send", send)
+    B.call(self, qual=MEMOER + "._serviceOnceTxGrams")
+    B.no_other_exception()
+    if not B.returned():
+        return
+    left = ctx.st(txgs)["v"]
+    B.prove("the-second-entry-is-still-queued-with-the-same-object", len(left) == 1 and left[0][0] is shared, top=True)
+    B.prove("the-object-still-queued-holds-all-its-bytes: the-sent-gram-was-consumed-in-a-copy", z(ctx.st(shared)["v"]) == g0.t, top=True)
+    pend = ctx.st(self)["txbs"]
+    B.prove("the-pending-remainder-is-not-the-callers-object", isinstance(pend, tuple) and pend[0] is not shared, top=True)
